@@ -8,6 +8,8 @@
 N="${1:-4}"
 cd /verif/seeded || exit 2
 ids=( $(ls -d C[0-9][0-9]-* | sort) )
+# REGRESS_IDS=<file>: only the ids listed in the file; REGRESS_PRIMARY=1: only the first check of "breaks"
+if [ -n "$REGRESS_IDS" ]; then ids=( $(cat "$REGRESS_IDS") ); fi
 worker() {
   i="$1"; R="/tmp/rr$i"
   rm -rf "$R"; git -C /repo worktree prune
@@ -21,6 +23,7 @@ worker() {
     id="${ids[$k]}"
     [ -f "/verif/seeded/$id/patch.diff" ] || continue
     checks=$(python3 -c "import json;print(' '.join(json.load(open('/verif/seeded/$id/meta.json'))['breaks']))")
+    if [ -n "$REGRESS_PRIMARY" ]; then checks="${checks%% *}"; fi
     if ! git -C "$R/repo" apply "/verif/seeded/$id/patch.diff" 2>/dev/null; then echo "$id: PATCH DOES NOT APPLY"; continue; fi
     if ! (cd "$R/engine" && CARGO_NET_OFFLINE=true cargo build --release --offline >"$R/build.log" 2>&1); then echo "$id: BUILD FAILED"; git -C "$R/repo" checkout -- .; continue; fi
     case " $checks " in *" C16 "*|*" C17 "*|*" C18 "*)
